@@ -78,15 +78,49 @@ class AdvSched(fakeos.Sched):
         return rc << 8
 
 
-def make(n, jobs_hi, budget, kinds=("run_command",), unrelated=False, orders="rev"):
+def make(n, jobs_hi, budget, kinds=("run_command",), unrelated=False, orders="rev", line_level=False):
     def fn(g):
         specs = graphs.sym_graph(g, n, kinds, orders=orders)
         root = n - 1
         jobs = g.choose("jobs", jobs_hi) + 1
         sched = AdvSched(g, budget)
         hook = None
-        res = graphs.run_graph(g, specs, root, again=True, jobs=jobs, sched=sched, adversarial=True,
-                               unrelated=1 if unrelated else 0)
+        if line_level:
+            # every executed line of utils/sigchld.py and of the executor's wait loop is a preemption point too
+            import sys as _sys
+            import conductor.utils.sigchld as _sc
+            import conductor.execution.executor as _ex
+            files = {_sc.__file__, _ex.__file__}
+            holder = {}
+
+            def local(frame, event, arg):
+                k_ = holder.get("kernel")
+                if event == "line" and k_ is not None and k_.installed and not k_.in_handler:
+                    if frame.f_code.co_filename == _sc.__file__ or frame.f_code.co_name in ("wait_for_next_op", "_wait_for_next_inflight_op"):
+                        k_._point("line")
+                return local
+
+            def glob(frame, event, arg):
+                return local if frame.f_code.co_filename in files else None
+            import conductor.cli.run as _cli
+            from vlib import fakeos as _fk
+            orig_init = _fk.Kernel.__enter__
+
+            def enter(self_):
+                holder["kernel"] = self_
+                return orig_init(self_)
+            _fk.Kernel.__enter__ = enter
+            old_trace = _sys.gettrace()
+            _sys.settrace(glob)
+            try:
+                res = graphs.run_graph(g, specs, root, again=True, jobs=jobs, sched=sched, adversarial=True,
+                                       unrelated=1 if unrelated else 0)
+            finally:
+                _sys.settrace(old_trace)
+                _fk.Kernel.__enter__ = orig_init
+        else:
+            res = graphs.run_graph(g, specs, root, again=True, jobs=jobs, sched=sched, adversarial=True,
+                                   unrelated=1 if unrelated else 0)
         try:
             D = graphs.describe(specs) + ["jobs=%d" % jobs]
             k = res.kernel
@@ -153,6 +187,10 @@ def spaces(tier):
                         goals=["two exits before one delivery"]))
         sp.append(Space("n3-j2-b3-par", make(3, 2, 3),
                         "N=3, jobs 1..2, <=3 deviations", depth=9, tiers=("thorough",)))
+        sp.append(Space("n2-line-level-b2", make(2, 2, 2, line_level=True),
+                        "N<=2, jobs 1..2, <=2 deviations; additionally every executed line of utils/sigchld.py and of the executor's "
+                        "wait functions is a point where a child may have exited / the pending SIGCHLD is delivered", depth=8,
+                        tiers=("thorough",)))
     return sp
 
 
